@@ -1320,3 +1320,32 @@ V("C24-write-error-overwritten","C24","pkg/services/object/put/validation.go",""
 	}
 ""","""	err = t.checkQuotaLimits(t.cachedHeader, t.writtenPayload)
 """,rule="C24.R7")
+V("C03-lower-bound-mismatch-stops-scan","C03","pkg/core/object/metadata.go","""					switch mch {
+					case object.MatchStringNotEqual, object.MatchNumGT, object.MatchNumGE:
+						return true
+					default:
+						return false
+					}""","""					if mch != object.MatchStringNotEqual && (n > 0 || mch != object.MatchNumGT) {
+						return false
+					}
+					return true""",rule="C03.R6")
+V("C03-silent-mismatch-if-form","C03","pkg/core/object/metadata.go","""					switch mch {
+					case object.MatchStringNotEqual, object.MatchNumGT, object.MatchNumGE:
+						return true
+					default:
+						return false
+					}""","""					if mch == object.MatchStringNotEqual || mch == object.MatchNumGT || mch == object.MatchNumGE {
+						return true
+					}
+					return false""",expect="silent")
+V("C36-silent-inputs-cloned","C36",GL,"""	sort.Sort(fsChain)
+	sort.Sort(mainnet)
+""","""	fsChain = slices.Clone(fsChain)
+	mainnet = slices.Clone(mainnet)
+	sort.Sort(fsChain)
+	sort.Sort(mainnet)
+""",expect="silent",more=[{"file":GL,"old":'''	"sort"
+''',"new":'''	"slices"
+	"sort"
+'''}])
+V("C25-repeated-ec-rule-gets-first-list","C25","pkg/services/object/put/distributed.go","fin, err := handleECRule(len(repRules)+j, j, payloadParts, ecRules[ecRuleIdx])","fin, err := handleECRule(i, j, payloadParts, ecRules[ecRuleIdx])",rule="C25.R5")
